@@ -124,10 +124,15 @@ def obsStr : Obs K Int → String
   | .badOp => "bad-op"
   | .zeroed => "zeroed"
 
-inductive Kind where | I | S | P deriving DecidableEq, Repr, Inhabited
+/-- table kinds of the harness: I Int→Int, S String→Int, P PKey→PVal, V Int→String, W String→String, J Int→PVal, Q QKey→Int -/
+inductive Kind where | I | S | P | V | W | J | Q deriving DecidableEq, Repr, Inhabited
 
 def parseKind : String → Option Kind
-  | "I" => some .I | "S" => some .S | "P" => some .P | _ => none
+  | "I" => some .I | "S" => some .S | "P" => some .P | "V" => some .V | "W" => some .W | "J" => some .J | "Q" => some .Q | _ => none
+
+/-- the key class decides the key token syntax and the name space of "one hash per key" -/
+def Kind.keyTag : Kind → String
+  | .I | .V | .J => "I" | .S | .W => "S" | .P => "P" | .Q => "Q"
 
 def inInt64 (v : Int) : Bool := -9223372036854775808 ≤ v && v ≤ 9223372036854775807
 def inU64 (h : Nat) : Bool := h < 18446744073709551616
@@ -151,8 +156,8 @@ def validName (s : String) : Bool := !s.isEmpty && validNameChars s.toList
 /-- key token: kind I `<int>`; kinds S and P `<text>:<hash>` (P: text is the decimal id) -/
 def parseKey (kind : Kind) (tok : String) : Option K :=
   match kind with
-  | .I => (tok.toInt?).bind (fun i => if tok.contains ':' || !inInt64 i then none else some ⟨toString i, u64 i⟩)
-  | .S =>
+  | .I | .V | .J => (tok.toInt?).bind (fun i => if tok.contains ':' || !inInt64 i then none else some ⟨toString i, u64 i⟩)
+  | .S | .W =>
     match tok.splitOn ":" with
     | [a, b] => if validName a && a.length < 32 then (b.toNat?).bind (fun h => if inU64 h then some ⟨a, h⟩ else none) else none
     | _ => none
@@ -160,6 +165,12 @@ def parseKey (kind : Kind) (tok : String) : Option K :=
     match tok.splitOn ":" with
     | [a, b] => match a.toInt?, b.toNat? with
       | some i, some h => if inInt64 i && inU64 h then some ⟨toString i, h⟩ else none
+      | _, _ => none
+    | _ => none
+  | .Q =>      -- 12-byte key type: int32 id, uint32 hash
+    match tok.splitOn ":" with
+    | [a, b] => match a.toInt?, b.toNat? with
+      | some i, some h => if -2147483648 ≤ i && i ≤ 2147483647 && h < 4294967296 then some ⟨toString i, h⟩ else none
       | _, _ => none
     | _ => none
 
@@ -175,11 +186,42 @@ def parsePairs (kind : Kind) : List String → Option (List (K × Int) × Option
 def MAXPAIRS : Nat := 30
 def MAXW : Nat := 72
 
-/-- a value object read as a key (`cast(v, t->ktype)`): Int → Int tables only -/
+/-- a value object read as a key (`cast(v, t->ktype)`): Int → Int tables only (String → String: not expressible in op files, refused as bad-op) -/
 def asKey (kind : Kind) (v : Int) : Option K :=
   match kind with
   | .I => some ⟨toString v, u64 v⟩
   | _ => none
+
+/-- a key object read as a value (`cast(k, t->vtype)`): Int → Int tables only -/
+def asVal (kind : Kind) (k : K) : Option Int :=
+  match kind with
+  | .I => k.name.toInt?
+  | _ => none
+
+def dropS (s : String) (n : Nat) : String := String.ofList (s.toList.drop n)
+def takeS (s : String) (n : Nat) : String := String.ofList (s.toList.take n)
+
+/-- `o=<tok>` / `k=<key>` / `v=<key>`: an argument object of seta / rema / mema / geta (`valPos`: `o=` carries an integer) -/
+def parseRefKey (kind : Kind) (tok : String) : Option (Ref K K) :=
+  if tok.length < 3 then none else
+  match (takeS tok 2), parseKey kind (dropS tok 2) with
+  | "o=", some k => some (.obj k)
+  | "k=", some k => some (.keyOf k)
+  | "v=", some k => some (.valOf k)
+  | _, _ => none
+
+def parseRefVal (kind : Kind) (tok : String) : Option (Ref K Int) :=
+  if tok.length < 3 then none else
+  match takeS tok 2 with
+  | "o=" => ((dropS tok 2).toInt?).bind (fun v => if inInt64 v && (dropS tok 2).toList.all (fun c => c.isDigit || c = '-') then some (.obj v) else none)
+  | "k=" => (parseKey kind (dropS tok 2)).map .keyOf
+  | "v=" => (parseKey kind (dropS tok 2)).map .valOf
+  | _ => none
+
+def refKeyOf {α : Type} : Ref K α → Option K
+  | .obj _ => none
+  | .keyOf k => some k
+  | .valOf k => some k
 
 structure St where
   ts : List T
@@ -195,6 +237,7 @@ structure St where
   nKeyErr : Nat := 0
   nReplace : Nat := 0
   nDisplace : Nat := 0
+  nOwn : Nat := 0          -- operations given an argument object of the table's own
 
 
 def main (args : List String) : IO Unit := do
@@ -218,6 +261,12 @@ def main (args : List String) : IO Unit := do
         else IO.println "O bad-op"
       | _, _ => IO.println "O bad-op"
       continue
+    if w.head? == some "gc" then
+      if w.length == 1 then
+        st := { st with nOps := st.nOps + 1 }
+        IO.println "O gc ok"      -- a collection between two operations changes no table
+      else IO.println "O bad-op"
+      continue
     -- parse into an Op + the key (for the dump window) + op name
     let tIdx? : Option Nat := match w with
       | _ :: t :: _ => t.toNat?
@@ -230,10 +279,11 @@ def main (args : List String) : IO Unit := do
     if let [nm, _, ktok] := w then
       if nm == "getk" || nm == "getv" then
         let some k := parseKey kind ktok | IO.println "O bad-op"; continue
-        let tag := (match kind with | .I => "I" | .S => "S" | .P => "P") ++ k.name
+        let tag := kind.keyTag ++ k.name
         match st.seen[tag]? with
         | some h => if h ≠ k.h then IO.println "O bad-op"; continue
         | none => st := { st with seen := st.seen.insert tag k.h }
+        if nm == "getv" && kind == .W then IO.println "O bad-op"; continue
         st := { st with nOps := st.nOps + 1 }
         let tb := st.ts[t]!
         match (if nm == "getk" then getViaKey cfg K.h (asKey kind) tb k else getViaVal cfg K.h (asKey kind) tb k) with
@@ -250,8 +300,72 @@ def main (args : List String) : IO Unit := do
               IO.println s!"M line={lineNo} op={nm} model={obsStr o} spec={obsStr so}"
               st := { st with nMism := st.nMism + 1 }
         continue
+    -- `seta` / `rema` / `mema` / `geta`: argument objects that may live in the table's own slot array (`Cello.Table.stepA`)
+    if let nm :: _ :: rest := w then
+      if (nm == "seta" && rest.length == 2) || ((nm == "rema" || nm == "mema" || nm == "geta") && rest.length == 1) then
+        let some kr := parseRefKey kind (rest[0]!) | IO.println "O bad-op"; continue
+        let vr? : Option (Ref K Int) := if nm == "seta" then parseRefVal kind (rest[1]!) else some (.obj 0)
+        let some vr := vr? | IO.println "O bad-op"; continue
+        -- one hash per key name; all tokens are checked before any is recorded
+        let toks : List K := (match kr with | .obj k | .keyOf k | .valOf k => [k]) ++ (match refKeyOf vr with | some k => [k] | none => [])
+        let mut bad := false
+        let mut seen' := st.seen
+        for k in toks do
+          let tag := kind.keyTag ++ k.name
+          match seen'[tag]? with
+          | some h => if h ≠ k.h then bad := true
+          | none => seen' := seen'.insert tag k.h
+        -- the harness records the first token before it looks at the second
+        if bad then
+          match toks with
+          | k :: _ =>
+            let tag := kind.keyTag ++ k.name
+            if (st.seen[tag]?).isNone then st := { st with seen := st.seen.insert tag k.h }
+          | [] => pure ()
+          IO.println "O bad-op"; continue
+        st := { st with seen := seen' }
+        let crossK := match kr with | .valOf _ => true | _ => false
+        let crossV := nm == "seta" && (match vr with | .keyOf _ => true | _ => false)
+        if kind == .W && (crossK || crossV) then IO.println "O bad-op"; continue
+        st := { st with nOps := st.nOps + 1 }
+        let tb := st.ts[t]!
+        let beforeN := tb.n
+        -- the key value the key argument holds (for the dump window)
+        let key : Option K := match kr.readKey K.h (asKey kind) tb with
+          | .ok (some (.ok k)) => (if nm == "seta" then (match vr.readVal K.h (asVal kind) tb with | .ok (some (.ok _)) => some k | _ => none) else some k)
+          | _ => none
+        let aop : AOp K Int := match nm with
+          | "seta" => .setA t kr vr | "rema" => .remA t kr | "mema" => .memA t kr | _ => .getA t kr
+        let ts := st.ts
+        st := { st with ts := [] }
+        match stepA cfg K.h (asKey kind) (asVal kind) ts aop with
+        | .error f =>
+          IO.println s!"O {nm} {f.name}"
+          st := { st with halted := true }
+        | .ok (ts', o) =>
+          let after := ts'[t]!
+          let isBad := match o with | .badOp => true | _ => false
+          let withCs := !isBad && after.n ≠ beforeN
+          if nm == "seta" || nm == "rema" then IO.println s!"O {nm} {obsStr o} | {dump after (if isBad then none else key) withCs}"
+          else IO.println s!"O {nm} {obsStr o}"
+          st := { st with ts := ts', maxSlots := max st.maxSlots after.n, nRehash := st.nRehash + (if after.n ≠ beforeN then 1 else 0),
+                          nOwn := st.nOwn + (match kr, vr with | .obj _, .obj _ => 0 | _, _ => 1) }
+          if st.shadow then
+            if after.nitems > 1500 then st := { st with shadow := false }
+            else
+              let (spec', so) := specStepA (asKey kind) (asVal kind) st.spec aop
+              st := { st with spec := spec' }
+              let specLen := (spec'[t]!).length
+              if !(obsEq o so) || after.nitems ≠ specLen then
+                IO.println s!"M line={lineNo} op={nm} model={obsStr o} len={after.nitems} spec={obsStr so} len={specLen}"
+                st := { st with nMism := st.nMism + 1 }
+              if !(invOk after) then
+                IO.println s!"M line={lineNo} op={nm} invariant-broken {dump after key false}"
+                st := { st with nMism := st.nMism + 1 }
+        continue
     let parsed : Option (Op K Int × Option K × String × Bool) := match w with
       | ["new", _, k] => (parseKind k).map (fun _ => (.new t, none, "new", true))
+      | ["newm", _, k] => (parseKind k).map (fun _ => (.new t, none, "newm", true))
       | ["set", _, k, v] => match parseKey kind k, v.toInt? with
         | some k, some v => if inInt64 v then some (.set t k v, some k, "set", false) else none
         | _, _ => none
@@ -281,7 +395,7 @@ def main (args : List String) : IO Unit := do
     let some (op, key, name, forceCs) := parsed | IO.println "O bad-op"; continue
     -- one hash per key name (what a hash *function* is)
     if let some k := key then
-      let tag := (match kind with | .I => "I" | .S => "S" | .P => "P") ++ k.name
+      let tag := kind.keyTag ++ k.name
       match st.seen[tag]? with
       | some h => if h ≠ k.h then IO.println "O bad-op"; continue
       | none => st := { st with seen := st.seen.insert tag k.h }
@@ -294,7 +408,7 @@ def main (args : List String) : IO Unit := do
     if let some nk := pairKeys.2 then
       -- all keys parse before any is recorded (the harness does the same)
       for k in pairKeys.1 do
-        let tag := (match nk with | .I => "I" | .S => "S" | .P => "P") ++ k.name
+        let tag := nk.keyTag ++ k.name
         match st.seen[tag]? with
         | some h => if h ≠ k.h then badHash := true; break
         | none => st := { st with seen := st.seen.insert tag k.h }
@@ -312,14 +426,14 @@ def main (args : List String) : IO Unit := do
       let after := ts'[t]!
       let withCs := forceCs || after.n ≠ beforeN
       let line := match name with
-        | "new" | "set" | "assign" | "copy" => s!"O {name} | {dump after key withCs}"
+        | "new" | "newm" | "set" | "assign" | "copy" => s!"O {name} | {dump after key withCs}"
         | "rem" | "resize" | "newp" | "assignm" => s!"O {name} {obsStr o} | {dump after key withCs}"
         | "check" => s!"O check {after.n} {after.nitems} cs={checksum after}"
         | _ => s!"O {name} {obsStr o}"
       IO.println line
       -- kinds follow the source on assign/copy; `new` sets the kind
       let kinds' := match w with
-        | ["new", _, k] => st.kinds.set! t ((parseKind k).getD .I)
+        | ["new", _, k] | ["newm", _, k] => st.kinds.set! t ((parseKind k).getD .I)
         | ["assign", _, s] | ["copy", _, s] => st.kinds.set! t (st.kinds[s.toNat!]!)
         | "newp" :: _ :: k :: _ => (match o with | .done => st.kinds.set! t ((parseKind k).getD .I) | _ => st.kinds)
         | "assignm" :: _ :: k :: _ => st.kinds.set! t ((parseKind k).getD .I)
@@ -345,4 +459,4 @@ def main (args : List String) : IO Unit := do
           if !(invOk after) then
             IO.println s!"M line={lineNo} op={name} invariant-broken {dump after key false}"
             st := { st with nMism := st.nMism + 1 }
-  IO.println s!"S ops={st.nOps} maxslots={st.maxSlots} rehashes={st.nRehash} keyerrors={st.nKeyErr} replaces={st.nReplace} model-mismatches={st.nMism} shadow={st.shadow}"
+  IO.println s!"S ops={st.nOps} maxslots={st.maxSlots} rehashes={st.nRehash} keyerrors={st.nKeyErr} replaces={st.nReplace} own-object-ops={st.nOwn} model-mismatches={st.nMism} shadow={st.shadow}"
